@@ -149,6 +149,22 @@ pub fn cases(tier: Tier) -> Vec<Case> {
     if !tier.is_quick() {
         lens.push(32 << 20);
         lens.push(3 * p + 17);
+        // every length up to 70 bytes (word and cache-line remainders), windows around 1..4 pages,
+        // and around the huge-page size
+        lens.extend(3..=70usize);
+        for k in 1..=4usize {
+            for d in 2..=9usize {
+                lens.push(k * p - d);
+                lens.push(k * p + d);
+            }
+        }
+        for d in [0usize, 1, 2, 7, 8, 4095, 4096, 4097] {
+            lens.push((2 << 20) - d);
+            lens.push((2 << 20) + d);
+            lens.push((4 << 20) + d);
+        }
+        lens.sort();
+        lens.dedup();
     }
     let mut v = Vec::new();
     let inproc = cfg!(feature = "inproc");
